@@ -119,7 +119,10 @@ def parseJob (vt : List VRow) (ct : List Con) : List String → Option (Job × L
   | _ => none
 
 def parseAt : List String → Option (Nat × Option Nat)
-  | ["AT", s, t] => some (s.toNat!, if t == "-" then none else some t.toNat!)
+  | ["AT", s, t] =>
+    -- `u<n>`: the archive is served truncated to n bytes and Install runs until Unarchive fails; for the visible tree
+    -- that is a crash at the step (the partial unpacking happens inside the staging directory)
+    some (s.toNat!, if t == "-" || t.startsWith "u" then none else some t.toNat!)
   | _ => none
 
 /-! ### printing -/
